@@ -1863,6 +1863,9 @@ class Identifier(str):
     def __hash__(self) -> int:
         return super().__hash__()
 
+    def __getnewargs_ex__(self) -> tuple[tuple[str], dict[str, object]]:
+        return (str(self),), {"token": self.token}
+
 
 def parse_identifier(token: TokenT) -> Identifier:
     """Parse _token_ as an identifier."""
